@@ -101,7 +101,7 @@ class ProgramGen(object):
                  'globaldef', 'noeol', 'fstring', 'walrus', 'match', 'delvar', 'asyncfor', 'asynccomp', 'decoasync',
                  'docstr_in_def', 'deepnest', 'unicode', 'starunpack', 'yieldgen', 'condexpr', 'withas', 'stdoutwrite',
                  'elifchain', 'commentbody', 'parenwith', 'tripledq', 'mlstr_trailing', 'raises_expected',
-                 'raises_compound', 'markercomment', 'bscomment', 'padded']
+                 'raises_compound', 'markercomment', 'bscomment', 'padded', 'brblank', 'mlstr_wsline']
 
     def __init__(self, rng, kinds=None, allow_async=True):
         self.rng = rng
@@ -310,6 +310,14 @@ class ProgramGen(object):
             # significant trailing blanks inside a string literal
             self.defined_vars.append('s%d' % i)
             return S(["s%d = '''alpha   " % i, "beta %d  " % i, "'''; quiet(%d)" % i], k, i, str_body=(1, 2), is_expr=True)
+        if k == 'brblank':
+            # an empty line inside brackets (written '...', or '...   ' with blanks only: finding F25)
+            self.defined_vars.append('v%d' % i)
+            return S(['v%d = [' % i, '', '    emit(%d),' % i, '', '    %d]' % i], k, i)
+        if k == 'mlstr_wsline':
+            # a line of blanks only inside a string literal: the blanks are part of the value
+            self.defined_vars.append('s%d' % i)
+            return S(["s%d = '''alpha" % i, "  ", "beta %d'''; quiet(%d)" % (i, i)], k, i, str_body=(1, 2), is_expr=True)
         if k == 'import':
             first = r.choice(['import os.path as m%d' % i, 'from os import path as m%d' % i])
             return S([first, 'quiet(%d)' % i], k, i, is_expr=True, ps1_lines=(1,))
@@ -411,6 +419,9 @@ class Layout(object):
         # probability that the example following a want / a blank line / prose is written at another
         # indentation than the one before it (every example carries its own indentation)
         self.reindent_prob = reindent_prob
+        # blanks written after the prompt of an empty line inside a statement (0: the bare prompt)
+        self.ws_cont = 0
+        self.used_ws_cont = False
 
     @staticmethod
     def random(rng):
@@ -418,12 +429,14 @@ class Layout(object):
         tabs = (base > 0 and rng.random() < 0.35)
         if tabs and base == 8 and rng.random() < 0.5:
             tabs = 'mixed'      # some lines indented by one tab, the others by eight blanks: the same columns
-        return Layout(rng, base_indent=base, tabs=tabs,
-                      wrapper=rng.choice(['freeform', 'freeform', 'google']),
-                      want_prob=rng.choice([0.2, 0.5, 0.8]),
-                      prose_prob=rng.choice([0.0, 0.15, 0.3]),
-                      blank_prob=rng.choice([0.0, 0.15, 0.3]),
-                      reindent_prob=rng.choice([0.0, 0.0, 0.3, 0.7]))
+        lay = Layout(rng, base_indent=base, tabs=tabs,
+                     wrapper=rng.choice(['freeform', 'freeform', 'google']),
+                     want_prob=rng.choice([0.2, 0.5, 0.8]),
+                     prose_prob=rng.choice([0.0, 0.15, 0.3]),
+                     blank_prob=rng.choice([0.0, 0.15, 0.3]),
+                     reindent_prob=rng.choice([0.0, 0.0, 0.3, 0.7]))
+        lay.ws_cont = rng.choice([0, 0, 1, 3])
+        return lay
 
     def describe(self):
         return {'base_indent': self.base_indent, 'tabs': self.tabs, 'wrapper': self.wrapper}
@@ -432,7 +445,7 @@ class Layout(object):
         """prompt-prefixed lines of one statement, list of (text, label)"""
         rng = self.rng
         style = style or rng.choice(self.styles)
-        if st.kind in ('tripledq', 'mlstr_trailing'):
+        if st.kind in ('tripledq', 'mlstr_trailing', 'mlstr_wsline'):
             style = 'ps2'
         out = []
         for li, line in enumerate(st.lines):
@@ -441,9 +454,14 @@ class Layout(object):
             else:
                 pre = '>>> ' if style == 'all_ps1' else '... '
             if line == '':
-                out.append(pre.rstrip())
+                if self.ws_cont and li not in st.str_body:
+                    out.append(pre + ' ' * self.ws_cont)     # a continuation line of blanks only
+                    self.used_ws_cont = True
+                else:
+                    out.append(pre.rstrip())
                 continue
-            if li in st.str_body and li > 0 and rng.random() < 0.5 and not line.lstrip().startswith(("'''", '"""')):
+            if (li in st.str_body and li > 0 and line.strip() and rng.random() < 0.5
+                    and not line.lstrip().startswith(("'''", '"""'))):
                 out.append(line)            # unprefixed line inside a multi-line string
                 self.used_unprefixed = True
             else:
@@ -463,6 +481,7 @@ class Layout(object):
         placed = {}
         pending = ''
         self.used_unprefixed = False
+        self.used_ws_cont = False
         features = set()
         shift = rng.choice([0, 0, 2, 4]) if self.reindent_prob else 0
         for si, st in enumerate(stmts):
@@ -548,6 +567,8 @@ class Layout(object):
                 features.add('mixed-tabs-and-blanks')
             else:
                 text = '\n'.join(_tabify(ln, self.base_indent) for ln in text.split('\n'))
+        if self.used_ws_cont:
+            features.add('blanks-only-continuation-line')
         info = {'labels': labels, 'wants': placed, 'style': style, 'head': len(head),
                 'unmatched_tail': pending, 'unprefixed': self.used_unprefixed, 'features': sorted(features)}
         return text, info
